@@ -3,6 +3,7 @@ package c02
 import (
 	"fmt"
 	"strconv"
+	"strings"
 	"time"
 
 	"verifharness/core"
@@ -61,6 +62,101 @@ func nonFiniteProbe(ctx *core.Ctx, bin string) {
 				ctx.Violation("invented-absent:after-nonfinite-geojson", fmt.Sprintf("`SET %s nan OBJECT %s` was answered %s; after 100 points around it were deleted (every DEL answered 1, SCAN lists only what is left) %q still returns %v", key, bad, rp.String(), q, ghosts),
 					map[string]any{"object": bad, "query": q, "returned_deleted_ids": ghosts})
 				return
+			}
+		}
+	}
+}
+
+// clipCircleProbe: CLIPBY with area kinds for which TEST cannot produce the
+// clipped area (CIRCLE; GET of a simple point). For point objects the clipped
+// search is the conjunction of the two per-object predicates: inside the area
+// (TEST) and inside the clip rectangle (TEST ... WITHIN BOUNDS).
+func clipCircleProbe(ctx *core.Ctx, bin string) {
+	s, err := srv.Start(srv.Opts{Bin: bin, Args: []string{"--appendonly", "no"}})
+	if err != nil {
+		ctx.Inconclusive("clip-circle probe: " + err.Error())
+		return
+	}
+	defer s.Kill9()
+	c, err := respc.Dial(s.Addr(), 5*time.Second)
+	if err != nil {
+		ctx.Inconclusive("clip-circle probe: " + err.Error())
+		return
+	}
+	defer c.Close()
+	c.Timeout = 20 * time.Second
+	rng := ctx.SubRng(778)
+	type pt struct {
+		id       string
+		lat, lon float64
+	}
+	var pts []pt
+	for i := 0; i < 150; i++ {
+		p := pt{fmt.Sprintf("q%03d", i), float64(rng.Intn(1200)-600) / 100, float64(rng.Intn(1200)-600) / 100}
+		pts = append(pts, p)
+		c.Do("SET", "clipk", p.id, "POINT", strconv.FormatFloat(p.lat, 'f', -1, 64), strconv.FormatFloat(p.lon, 'f', -1, 64))
+	}
+	c.Do("SET", "clipref", "pt", "POINT", "1", "1")
+	c.Do("SET", "clipk", "at-ref", "POINT", "1", "1")
+	test := func(p pt, area ...string) (int64, bool) {
+		r, err := c.Do(append([]string{"TEST", "POINT", strconv.FormatFloat(p.lat, 'f', -1, 64), strconv.FormatFloat(p.lon, 'f', -1, 64), "INTERSECTS"}, area...)...)
+		if err != nil || r.Kind != ':' {
+			return 0, false
+		}
+		return r.Int, true
+	}
+	for q := 0; q < 40; q++ {
+		area := []string{"CIRCLE", strconv.Itoa(rng.Intn(7) - 3), strconv.Itoa(rng.Intn(7) - 3), strconv.Itoa(100000 + rng.Intn(500000))}
+		band := true // the circle is a 64-gon for clipping: positions near its rim are not judged
+		if q%8 == 7 {
+			area, band = []string{"GET", "clipref", "pt"}, false
+		}
+		la, lo := float64(rng.Intn(800)-400)/100, float64(rng.Intn(800)-400)/100
+		clip := []string{"BOUNDS", strconv.FormatFloat(la, 'f', -1, 64), strconv.FormatFloat(lo, 'f', -1, 64), strconv.FormatFloat(la+float64(1+rng.Intn(400))/100, 'f', -1, 64), strconv.FormatFloat(lo+float64(1+rng.Intn(400))/100, 'f', -1, 64)}
+		for _, cmd := range []string{"INTERSECTS", "WITHIN"} {
+			full := append(append(append([]string{cmd, "clipk", "LIMIT", "100000", "IDS"}, area...), "CLIPBY"), clip...)
+			r, err := c.Do(full...)
+			if err != nil {
+				ctx.Inconclusive("clip-circle probe: " + err.Error())
+				return
+			}
+			if r.IsErr() {
+				ctx.Count("clip_circle_refused", 1) // refusing CLIPBY for such an area is a consistent answer
+				continue
+			}
+			got := map[string]bool{}
+			for _, e := range r.Arr[1].Arr {
+				got[e.Str] = true
+			}
+			ctx.Eval(1)
+			ctx.Count("clip_circle_queries", 1)
+			ctx.Distinct("clip-circle|" + cmd + "|" + area[0])
+			all := append(append([]pt{}, pts...), pt{"at-ref", 1, 1})
+			for _, p := range all {
+				inClip, ok1 := test(p, clip...)
+				inArea, ok2 := test(p, area...)
+				if !ok1 || !ok2 {
+					continue
+				}
+				if band && area[0] == "CIRCLE" {
+					// rim band: shrink and grow the circle by 1 %
+					r0, _ := strconv.ParseFloat(area[3], 64)
+					in1, _ := test(p, "CIRCLE", area[1], area[2], strconv.FormatFloat(r0*0.99, 'f', -1, 64))
+					in2, _ := test(p, "CIRCLE", area[1], area[2], strconv.FormatFloat(r0*1.01, 'f', -1, 64))
+					if in1 != in2 {
+						continue
+					}
+				}
+				want := inClip == 1 && inArea == 1
+				if got[p.id] != want {
+					kind := "invented"
+					if want {
+						kind = "lost"
+					}
+					ctx.Violation(kind+":clipby:"+strings.ToLower(area[0]), fmt.Sprintf("%q: point %s (%v, %v) is inside the area: %v, inside the clip rectangle: %v (both by TEST), returned: %v", full, p.id, p.lat, p.lon, inArea == 1, inClip == 1, got[p.id]),
+						map[string]any{"query": full, "point": []float64{p.lat, p.lon}})
+					return
+				}
 			}
 		}
 	}
